@@ -76,5 +76,6 @@ const char *probe_name(int i);
 
 struct RunResult { Viol viol; uint64_t sig = 0; bool nontrivial = false; uint64_t pairs = 0; };
 RunResult run_plan(const Plan &p, Stats *st);
+extern uint64_t g_index;        // index of the run being executed (goes into FATAL lines)
 
 } // namespace C
